@@ -153,16 +153,22 @@ class EffectivePotential(ABC):
             So we need a wrapper that casts back to Fields type. It also needs to fix the temperature.
             """
 
-            def evaluateWrapper(fieldArray: np.ndarray):
-                fields = Fields.castFromNumpy(fieldArray)
-                return self.evaluate(fields, T[i])
+            # The minimizer's default gradient tolerance and finite-difference step are
+            # absolute numbers. To make the result independent of the units the model
+            # is expressed in, minimize in units of the temperature: fields in units
+            # of T and the potential in units of T^4.
+            scale = float(np.abs(T[i])) if np.abs(T[i]) > 0 else 1.0
+
+            def evaluateWrapper(scaledFieldArray: np.ndarray):
+                fields = Fields.castFromNumpy(scaledFieldArray * scale)
+                return self.evaluate(fields, T[i]) / scale**4
 
             guess = guesses.getFieldPoint(i)
 
-            res = scipy.optimize.minimize(evaluateWrapper, guess, tol=tol)
+            res = scipy.optimize.minimize(evaluateWrapper, guess / scale, tol=tol)
 
-            resLocation[i] = res.x
-            resValue[i] = res.fun
+            resLocation[i] = res.x * scale
+            resValue[i] = res.fun * scale**4
 
             # Check for presenece of imaginary parts at minimum
             self.evaluate(Fields((res.x)), T[i])
